@@ -2612,6 +2612,17 @@ fn unpack_package(tarball: &File, unpack_dir: &Path) -> Result<(), UnpackError> 
             });
         }
 
+        // Like cargo, never let the archive provide the completion marker itself: a tarball
+        // carrying `<prefix>/.cargo-ok` could otherwise make an interrupted unpack look
+        // complete, or (as a link) redirect the marker we write below.
+        let normalized: PathBuf = entry_path
+            .components()
+            .filter(|c| !matches!(c, std::path::Component::CurDir))
+            .collect();
+        if normalized == Path::new(prefix).join(CARGO_OK_FILE) {
+            continue;
+        }
+
         entry
             .unpack_in(parent)
             .map_err(|error| UnpackError::Unpack {
